@@ -5,6 +5,7 @@ CONSTANTS
   Periodic = FALSE
   DeleteByName = FALSE
   ClaimIgnoresCancel = FALSE
+  PrefixCancellers = {}
   DropOnClaim = TRUE
   MaxRuns = 1
 INVARIANTS TypeOK AtMostOnce NoOverlap NoPanic NoLostRun NotDropped CancelBranchNoRun NameReusable NameSlotUnique SuccessorReachable LockFreeAtEnd
